@@ -224,7 +224,7 @@ def run_task(task):
 
 
 def plan(tier, seed):
-    total = 480 if tier == "quick" else 5000
+    total = 800 if tier == "quick" else 5000
     W = 16
     return [{"n": total // W, "seed": seed * 1000 + w, "shrink": 60 if tier == "quick" else 400}
             for w in range(W)]
